@@ -1,7 +1,7 @@
 CONSTANTS
   P = 46337
   Rs = {1, 2}
-  Offs = {0, 1}
+  Offs = {0}
   LimIdx = {1, 2, 3, 4, 5, 6, 7, 8}
   Ks = {0, 1, 2, 3, 4, 5, 6}
 INIT Init
